@@ -341,6 +341,14 @@ func satEnumerate(s *Shard, prop string, fn func(c *Case)) {
 					}
 					for ci, cc := range currents {
 						cfg := satCfg{N: g.n, Vals: vals, Types: types, Spec: spec, Current: cc, Ranges: (si+ci)%2 == 0, ZVal: 1}
+						if spec.Fn != "thresholds" && (si+ci)%4 == 1 {
+							// first criterion strictly negative for every known alternative, range observed
+							nv := make([][]float64, len(vals))
+							for i := range vals {
+								nv[i] = append([]float64{vals[i][0] - 3}, vals[i][1:]...)
+							}
+							cfg.Vals, cfg.Ranges, cfg.ZVal = nv, false, -1.5
+						}
 						fn(&Case{Prop: prop, Kind: "satisfaction", Req: satRequest(cfg)})
 						if g.n >= 2 && g.n <= 3 && g.m == 2 && si%5 == 0 {
 							for _, k := range []float64{0, 0.5, 1 - 1.0/(1<<53)} {
